@@ -110,7 +110,7 @@ impl Property for C17 {
         "C17"
     }
     fn rule(&self) -> String {
-        "1-3 props whose declared types are expressions of depth <=4 built from the atom table (string/number/boolean/object/bigint/symbol/null/any/unknown keywords; string, number, boolean, bigint, template literal types; function and constructor types; arrays, tuples; type literals with and without call signatures, {}; Array<T>, Function, Object, Date, Map, Set, WeakMap, WeakSet, Promise, RegExp, Error) by union, alias indirection (1-2 hops), parentheses, optional members, members written as getter / method / without annotation, the keywords undefined / void and callable object types with extra members (bounds only), optional tuple elements, index signatures, array / tuple indexing ([number], [0]), property indexing through interfaces and aliases ([\"k\"], [\"a\"|\"b\"], [string], method members), utility wrappers (Partial, Required, Readonly, Record, Pick, Omit, InstanceType, Uppercase, Lowercase, Capitalize, Parameters, ConstructorParameters, NonNullable, Exclude, Extract). Each generated type carries its expected constructor set (any/unknown absorbing -> no check) and sample inhabitants. Oracle: (a) the normalised emitted `type` (scalar == one-element list; bare null / absent == no check) equals the expected set (for Exclude / Extract: contains the constructors of the surviving inhabitants and stays within the union of the parts), with Boolean and String in declaration order; (b) Vue's runtime type assertion (mock, from Vue's source) accepts every generated inhabitant against the emitted type. non-trivial = composition depth >=2; distinct by hash(source)".into()
+        "1-3 props whose declared types are expressions of depth <=4 built from the atom table (string/number/boolean/object/bigint/symbol/null/any/unknown keywords; string, number, boolean, bigint, template literal types; function and constructor types; arrays, tuples; type literals with and without call signatures, {}; Array<T>, Function, Object, Date, Map, Set, WeakMap, WeakSet, Promise, RegExp, Error) by union, alias indirection (1-2 hops), parentheses, optional members, members written as getter / method / without annotation, the keywords undefined / void and callable object types with extra members (bounds only), optional tuple elements, index signatures, array / tuple indexing ([number], [0]), property indexing through interfaces and aliases ([\"k\"], [(\"k\")], [\"a\"|\"b\"], [string], nested [\"x\"][\"k\"], method members; a member inherited through extends with bounds only), utility wrappers (Partial, Required, Readonly, Record, Pick, Omit, InstanceType, Uppercase, Lowercase, Capitalize, Parameters, ConstructorParameters, NonNullable, Exclude, Extract). Each generated type carries its expected constructor set (any/unknown absorbing -> no check) and sample inhabitants. Oracle: (a) the normalised emitted `type` (scalar == one-element list; bare null / absent == no check) equals the expected set (for Exclude / Extract: contains the constructors of the surviving inhabitants and stays within the union of the parts), with Boolean and String in declaration order; (b) Vue's runtime type assertion (mock, from Vue's source) accepts every generated inhabitant against the emitted type. non-trivial = composition depth >=2; distinct by hash(source)".into()
     }
     fn assumptions(&self) -> Vec<String> {
         vec![
@@ -204,7 +204,7 @@ impl C17 {
                     // `null` (or, for Exclude / Extract, when `null` is within the bounds)
                     let within = e["loose"]["may"]
                         .as_array()
-                        .map(|m| m.iter().any(|x| x == "null"))
+                        .map(|m| m.iter().any(|x| x == "null" || x == "*nocheck"))
                         .unwrap_or(false);
                     if exp != &vec!["null".to_string()] && !within {
                         return fail("typed-prop-has-no-check");
@@ -273,8 +273,12 @@ impl EmitGen<'_, '_, '_> {
     fn lit_union(&mut self, names: &[String]) -> String {
         let lits: Vec<String> = names.iter().map(|n| format!("\"{n}\"")).collect();
         let u = lits.join(" | ");
-        match self.g.c.pick(3) {
+        match self.g.c.pick(4) {
             0 => u,
+            3 => {
+                self.g.label("parenthesised-literal-union");
+                format!("({u})")
+            }
             1 => {
                 let hops = self.g.c.range(1, 2);
                 let mut t = u;
